@@ -60,6 +60,13 @@ def scalars():
     return out
 
 
+class UnknownPredicate(CannotEstablish):
+    def __init__(self, m, recv):
+        CannotEstablish.__init__(self, "predicate .%s() of the arbitrary type %s" % (m, recv.payload["n"]))
+        self.key = (m, repr(recv), None)
+        self.m, self.n = m, recv.payload["n"]
+
+
 class NI(SymInterp):
     def binop(self, op, l, r, e):
         if op in ("==", "!="):
@@ -72,7 +79,18 @@ class NI(SymInterp):
                 return same == (op == "==")
         return super().binop(op, l, r, e)
 
+    world = None
+
     def default_method(self, recv, m, args, e):
+        if isinstance(recv, Variant) and recv.last == "TySym" and not args and self.world is not None:
+            # a predicate of an arbitrary type: answered by the oracle; unanswered ones are reported by name so that the caller can fork on them
+            k = (m, repr(recv), None)
+            if k in self.world.oracle:
+                return self.world.oracle[k]
+            try:
+                return super().default_method(recv, m, args, e)
+            except CannotEstablish:
+                raise UnknownPredicate(m, recv)
         if m in ("max", "min") and len(args) == 1 and isinstance(recv, int) and isinstance(args[0], int):
             return max(recv, args[0]) if m == "max" else min(recv, args[0])
         if m == "map" and len(args) == 1 and not isinstance(recv, list):
@@ -117,6 +135,8 @@ class World:
             k2 = (name, repr(recv), repr(args[0]) if args else None)
             if k2 in self.oracle:
                 return self.oracle[k2]
+            if not args and self.is_sym(recv):
+                raise UnknownPredicate(name, recv)
             raise CannotEstablish("no oracle answer for %s(%r, %r)" % (name, recv, args))
         self.depth += 1
         if self.depth > 12:
@@ -125,6 +145,7 @@ class World:
             f = self.fns[name]
             it = NI(methods={n: (lambda nn: (lambda i, r, a: self.call(nn, r, a) if isinstance(r, Variant) else NotImplemented))(n) for n in self.fns},
                     macros={"assert_eq": lambda i, e, env: None})
+            it.world = self
             it.methods["absolute_ty"] = lambda i, r, a: self.absolute(r)
             it.methods["into"] = lambda i, r, a: r
             names = f.param_names()
@@ -177,15 +198,34 @@ def r12a(ctx, run):
 
 def r12b(ctx, run):
     a, b = T("A"), T("B")
-    w = World(ctx, oracle={("can_fit_into", repr(a), repr(b)): True})
-    f = w.fns["can_cast_to"]
-    try:
-        got = w.call("can_cast_to", a, [b], top=True)
-    except (Panic, CannotEstablish) as c:
-        got = "cannot establish: %s" % getattr(c, "what", c)
-    run.check(got is True, f.site(), "can_cast_to(A, B) = true whenever can_fit_into(A, B), for symbolic A, B", "Ty::can_cast_to", "fits-implies-casts", f.file, f.ln,
-              "with can_fit_into(A, B) true for arbitrary types A, B, can_cast_to(A, B) is %s: an implicitly accepted conversion must also be accepted as an explicit cast "
-              "(can_cast_to must consult can_fit_into first)" % (got,))
+    f = World(ctx).fns["can_cast_to"]
+    # predicates of A and B that can_cast_to asks before (or instead of) consulting can_fit_into are forked both ways: the law must hold in every case
+    work, bad, n_cases = [{("can_fit_into", repr(a), repr(b)): True}], None, 0
+    while work and bad is None:
+        orc = work.pop()
+        n_cases += 1
+        if n_cases > 64:
+            bad = ("cannot establish: more than 64 predicate cases", orc)
+            break
+        w = World(ctx, oracle=orc)
+        try:
+            got = w.call("can_cast_to", a, [b], top=True)
+        except UnknownPredicate as u:
+            for v in (True, False):
+                o2 = dict(orc)
+                o2[u.key] = v
+                work.append(o2)
+            continue
+        except (Panic, CannotEstablish) as c:
+            got = "cannot establish: %s" % getattr(c, "what", c)
+        if got is not True:
+            bad = (got, orc)
+    case = ""
+    if bad:
+        case = ", ".join("%s(%s)=%s" % (k[0], k[1].split("'")[-2] if "'" in k[1] else k[1], v) for k, v in bad[1].items() if k[0] != "can_fit_into")
+    run.check(bad is None, f.site(), "can_cast_to(A, B) = true whenever can_fit_into(A, B), for symbolic A, B (%d predicate cases)" % n_cases, "Ty::can_cast_to", "fits-implies-casts", f.file, f.ln,
+              "with can_fit_into(A, B) true for arbitrary types A, B%s, can_cast_to(A, B) is %s: an implicitly accepted conversion must also be accepted as an explicit cast "
+              "(can_cast_to must consult can_fit_into before anything that can answer false)" % ((" and " + case) if case else "", bad[0] if bad else None))
     # and the consultation is on the same pair, same direction
     w2 = World(ctx, oracle={("can_fit_into", repr(a), repr(b)): False, ("can_fit_into", repr(b), repr(a)): True,
                             ("is_functionally_equivalent_to", repr(a), repr(b)): False})
